@@ -153,8 +153,13 @@ def to_real(v):
     raise ValueError(t)
 
 
-def evaluate(ctx, obj, info, tags=()):
-    ser = PycodeSerializer(context=XmlContext())
+_SHARED_SER: list = []
+
+
+def evaluate(ctx, obj, info, tags=(), shared=False):
+    if shared and not _SHARED_SER:
+        _SHARED_SER.append(PycodeSerializer(context=XmlContext()))
+    ser = _SHARED_SER[0] if shared else PycodeSerializer(context=XmlContext())
     try:
         text = ser.render(obj, var_name="result")
     except Exception as ex:  # noqa: BLE001
@@ -209,6 +214,14 @@ def run(ctx):
         ctx.case(("py-extra", k))
         has_tuple = "(" in repr(getattr(obj, "items", "")) and isinstance(getattr(obj, "items", None), tuple) and bool(obj.items)
         evaluate(ctx, obj, {"value": repr(obj)[:600]}, ["F9a"] if has_tuple else [])
+    # ONE serializer instance for a series of objects of the same classes whose values need different imports: what one
+    # rendering needed says nothing about the next
+    series = [m.Holder(a=None), m.Holder(a=Decimal("1.5")), m.Holder(a=[QName("urn:x-y", "q")]), m.Holder(a=XmlDate(2020, 2, 29), b=m.Color.RED),
+              m.Holder(a=m.Outer.Inner(x=1)), m.Holder(a=5), m.Frozen(items=()), m.Frozen(items=(Decimal("2"),), opts={"k": XmlDuration("P1D")})]
+    for k, obj in enumerate(series + series[::-1]):
+        ctx.case(("py-shared-serializer", k))
+        has_tuple = isinstance(getattr(obj, "items", None), tuple) and bool(obj.items)
+        evaluate(ctx, obj, {"value": repr(obj)[:600], "shared_serializer": True}, ["F9a"] if has_tuple else [], shared=True)
     for k, obj in enumerate(zoo.instances(ctx.seed + 18, ctx.pick(200, 10**7))):
         ctx.case(("py-zoo", k))
         evaluate(ctx, obj, {"model": type(obj).__name__, "value": repr(obj)[:1200]})
